@@ -45,14 +45,20 @@ def parseHistOp (j : Json) : P OpW := do
   let k ← (← field j "k").getStr?
   match k with
   | "extend" => do
+      -- the public spelling: offsets of any length (or null), map entries as python integers; dst = src is the
+      -- object extended with itself (Model/HistWide.lean `extendA`, Model/ExtendApi.lean)
       let dst ← parseNat (← field j "dst")
       let src ← parseNat (← field j "src")
-      if dst == src then
-        pure (.extendSelf dst (← parseOffsets (fieldD j "offsets" Json.null)) (← parsePairs (fieldD j "map" (Json.arr #[]))))
-      else pure (.base (← parseBaseOp j))
+      let offJ := fieldD j "offsets" Json.null
+      let off ← if offJ.isNull then pure none else do pure (some (← parseNatList offJ))
+      let m ← (← arr (fieldD j "map" (Json.arr #[]))).mapM (fun p => do
+        match ← (← arr p).mapM (·.getInt?) with
+        | [a, b] => pure (a, b)
+        | _ => throw "pair expected")
+      pure (.extendA dst src off m)
   | "getitem" => do
       let idx ← (← arr (← field j "idx")).mapM (·.getInt?)
-      if idx.any (fun i => i < 0) then
+      if idx.isEmpty || idx.any (fun i => i < 0) then   -- the empty selection is the atom-less subset (getitemI)
         pure (.getitemI (← parseNat (← field j "src")) (← parseNat (← field j "dst")) idx)
       else pure (.base (← parseBaseOp j))
   | "delete" => do
@@ -84,6 +90,7 @@ def OpW.target : OpW → Nat
   | .deleteI slot _ => slot
   | .getitemI _ dst _ => dst
   | .extendSelf slot _ _ => slot
+  | .extendA dst _ _ _ => dst
 
 def stepResultToJson (full : Bool) (op : OpW) (guarded : Bool) : Option (Except Err State) → Json
   | none => Json.mkObj [("skipped", Json.bool true)]
